@@ -751,7 +751,8 @@ class GriffeLoader:
         return [
             (imported_member, wildcard_obj.alias_lineno, wildcard_obj.alias_endlineno)
             for imported_member in module.members.values()
-            if imported_member.is_wildcard_exposed
+            # Wildcard imports that could not be expanded in the module are not names it defines.
+            if imported_member.is_wildcard_exposed and not (imported_member.is_alias and imported_member.wildcard)
         ]
 
 
